@@ -8,10 +8,12 @@
 //
 // Authorities: "both" (user and host SSH signer, bbolt database, SSHPOP provisioner),
 // "bothnodb", "none" (no SSH signer), "user" (user signer only), "host" (host signer only), and
+// "nosshcfg" (both signers through options, no `ssh` section in the configuration), and
 // "fed": both signers plus `ssh.keys` holding a *federated* host key and a *federated* user key
 // (keys of other SSH CAs) and a non-federated old host key (a former key of this CA).
 // Provisioners on each: jwk (fixture default), x5c, oidc (loopback discovery; admin = adminEmail),
-// neb (Nebula: tokens signed with the key of a host certificate of a local Nebula CA).
+// neb (Nebula: tokens signed with the key of a host certificate of a local Nebula CA),
+// k8sSA-default (Kubernetes service-account tokens signed with a local key).
 package main
 
 import (
@@ -67,6 +69,10 @@ type Case struct {
 	CA   string // both | none | user | host
 	Prov string // jwk | x5c | oidc | nebula      (sign)
 	NebHost int // nebula: which host certificate signs the token
+	// validity overrides: 0 = unset, else an offset (seconds) from valPool, instant = valBase + offset
+	TVA, TVB, RVA, RVB int
+	ReqUD              string // request templateData (must be ignored without a template)
+	AddUser            bool   // the request carries an addUserPublicKey
 	Sub  string
 	// sign
 	NoSSH  bool // token without step.ssh
@@ -86,6 +92,34 @@ type Case struct {
 	Revoked bool
 	DisRen  bool // use the provisioner with disableRenewal
 	Perms   string // both | crit | ext | none | empty   permissions of the presented certificate
+}
+
+// validity instants used by tokens and requests: offsets from valBase = (harness start - 2h).
+// validAfter candidates lie in the past, validBefore candidates 2-3 h ahead, so every combination
+// passes the provisioners' duration limits (C06) and no value can coincide with a CA default;
+// 21600 (start + 4h) is only used as a request validAfter together with a request validBefore
+// (validAfter > validBefore).
+var valPool = []int{3600, 5400, 14400, 18000, 21600}
+var valBase = time.Now().Add(-2 * time.Hour).Truncate(time.Second)
+
+func valInstant(off int) time.Time { return valBase.Add(time.Duration(off) * time.Second) }
+
+func valField(off int) string {
+	if off == 0 {
+		return "-"
+	}
+	return strconv.Itoa(off)
+}
+
+// what the certificate carries, as a pool offset or "*" (a CA default)
+func valOut(unix uint64) string {
+	d := int64(unix) - valBase.Unix()
+	for _, o := range valPool {
+		if d == int64(o) {
+			return strconv.Itoa(o)
+		}
+	}
+	return "*"
 }
 
 const (
@@ -119,6 +153,7 @@ type env struct {
 	dsaPub   ssh.PublicKey
 	serial   uint64
 	nebHosts []nebHost
+	k8sKey   *ecdsa.PrivateKey
 }
 
 type nebHost struct {
@@ -195,6 +230,8 @@ func newEnv() (*env, error) {
 	tr := true
 	pemNeb, hosts := newNebula()
 	e.nebHosts = hosts
+	e.k8sKey = must(ecdsa.GenerateKey(elliptic.P256(), rand.Reader))
+	k8sPub := pem.EncodeToMemory(&pem.Block{Type: "PUBLIC KEY", Bytes: must(x509.MarshalPKIXPublicKey(e.k8sKey.Public()))})
 	mkProvs := func(name string, pop bool) provisioner.List {
 		o := &provisioner.OIDC{Type: "OIDC", Name: "oidc", ClientID: oidcClient,
 			ConfigurationEndpoint: e.srv.URL + "/.well-known/openid-configuration", Admins: []string{adminEmail},
@@ -204,6 +241,7 @@ func newEnv() (*env, error) {
 			&provisioner.X5C{Type: "X5C", Name: "x5c", Roots: roots, Claims: &provisioner.Claims{EnableSSHCA: &tr}},
 			o,
 			&provisioner.Nebula{Type: "Nebula", Name: "neb", Roots: pemNeb, Claims: &provisioner.Claims{EnableSSHCA: &tr}},
+			&provisioner.K8sSA{Type: "K8sSA", Name: provisioner.K8sSAName, PubKeys: k8sPub, Claims: &provisioner.Claims{EnableSSHCA: &tr}},
 		}
 		if pop {
 			l = append(l,
@@ -213,18 +251,21 @@ func newEnv() (*env, error) {
 		return l
 	}
 	jc := &provisioner.Claims{EnableSSHCA: &tr}
-	both, err := fixture.New(fixture.Opts{SSH: true, Provisioners: mkProvs("both", true), JWKClaims: jc})
+	both, err := fixture.New(fixture.Opts{Config: func(cfg *config.Config) { cfg.SSH = &config.SSHConfig{} }, SSH: true, Provisioners: mkProvs("both", true), JWKClaims: jc})
 	if err != nil {
 		return nil, err
 	}
 	e.cas["both"] = both
 	e.userKey, e.hostKey = both.SSHUser, both.SSHHost
-	e.cas["none"] = must(fixture.New(fixture.Opts{NoDB: true, Provisioners: mkProvs("none", false), JWKClaims: jc, From: &fixture.CA{MiniCA: both.MiniCA, JWK: both.JWK}}))
-	e.cas["user"] = must(fixture.New(fixture.Opts{NoDB: true, Provisioners: mkProvs("user", true), JWKClaims: jc, From: &fixture.CA{MiniCA: both.MiniCA, JWK: both.JWK},
+	e.cas["none"] = must(fixture.New(fixture.Opts{Config: func(cfg *config.Config) { cfg.SSH = &config.SSHConfig{} }, NoDB: true, Provisioners: mkProvs("none", false), JWKClaims: jc, From: &fixture.CA{MiniCA: both.MiniCA, JWK: both.JWK}}))
+	e.cas["user"] = must(fixture.New(fixture.Opts{Config: func(cfg *config.Config) { cfg.SSH = &config.SSHConfig{} }, NoDB: true, Provisioners: mkProvs("user", true), JWKClaims: jc, From: &fixture.CA{MiniCA: both.MiniCA, JWK: both.JWK},
 		Extra: []authority.Option{authority.WithSSHUserSigner(e.userKey)}}))
-	e.cas["host"] = must(fixture.New(fixture.Opts{NoDB: true, Provisioners: mkProvs("host", true), JWKClaims: jc, From: &fixture.CA{MiniCA: both.MiniCA, JWK: both.JWK},
+	e.cas["host"] = must(fixture.New(fixture.Opts{Config: func(cfg *config.Config) { cfg.SSH = &config.SSHConfig{} }, NoDB: true, Provisioners: mkProvs("host", true), JWKClaims: jc, From: &fixture.CA{MiniCA: both.MiniCA, JWK: both.JWK},
 		Extra: []authority.Option{authority.WithSSHHostSigner(e.hostKey)}}))
-	e.cas["bothnodb"] = must(fixture.New(fixture.Opts{NoDB: true, Provisioners: mkProvs("bothnodb", true), JWKClaims: jc, From: &fixture.CA{MiniCA: both.MiniCA, JWK: both.JWK},
+	e.cas["bothnodb"] = must(fixture.New(fixture.Opts{Config: func(cfg *config.Config) { cfg.SSH = &config.SSHConfig{} }, NoDB: true, Provisioners: mkProvs("bothnodb", true), JWKClaims: jc, From: &fixture.CA{MiniCA: both.MiniCA, JWK: both.JWK},
+		Extra: []authority.Option{authority.WithSSHUserSigner(e.userKey), authority.WithSSHHostSigner(e.hostKey)}}))
+	// both signers given as options, no `ssh` section in the configuration (embedded use)
+	e.cas["nosshcfg"] = must(fixture.New(fixture.Opts{NoDB: true, Provisioners: mkProvs("nosshcfg", true), JWKClaims: jc, From: &fixture.CA{MiniCA: both.MiniCA, JWK: both.JWK},
 		Extra: []authority.Option{authority.WithSSHUserSigner(e.userKey), authority.WithSSHHostSigner(e.hostKey)}}))
 	e.fedHost = must(ecdsa.GenerateKey(elliptic.P256(), rand.Reader))
 	e.fedUser = must(ecdsa.GenerateKey(elliptic.P256(), rand.Reader))
@@ -297,7 +338,7 @@ func xlist(l []string) string {
 
 func caBits(name string) (string, string) {
 	switch name {
-	case "both", "bothnodb", "fed":
+	case "both", "bothnodb", "fed", "nosshcfg":
 		return "1", "1"
 	case "user":
 		return "1", "0"
@@ -353,7 +394,14 @@ func (e *env) runSign(k *Case) (line, impl string, ok bool) {
 		if pr == nil {
 			pr = []string{}
 		}
-		claims["step"] = map[string]any{"ssh": map[string]any{"certType": k.Tok.CertType, "keyID": k.Tok.KeyID, "principals": pr}}
+		sshOpts := map[string]any{"certType": k.Tok.CertType, "keyID": k.Tok.KeyID, "principals": pr}
+		if k.TVA != 0 {
+			sshOpts["validAfter"] = valInstant(k.TVA).UTC().Format(time.RFC3339)
+		}
+		if k.TVB != 0 {
+			sshOpts["validBefore"] = valInstant(k.TVB).UTC().Format(time.RFC3339)
+		}
+		claims["step"] = map[string]any{"ssh": sshOpts}
 	}
 	var tok string
 	var err error
@@ -384,6 +432,13 @@ func (e *env) runSign(k *Case) (line, impl string, ok bool) {
 		claims["iss"], claims["aud"] = "x5c", fixture.Audience("/1.0/ssh/sign")+"#x5c/x5c"
 		chain := []string{base64.StdEncoding.EncodeToString(e.x5cLeaf.Raw), base64.StdEncoding.EncodeToString(e.x5cRoot.Intermediate.Raw)}
 		tok, err = signJWT(e.x5cKey, "ES256", map[string]any{"x5c": chain}, claims)
+	case "k8ssa":
+		delete(claims, "step")
+		claims["iss"] = "kubernetes/serviceaccount"
+		claims["sub"] = "system:serviceaccount:default:" + k.Sub
+		claims["kubernetes.io/serviceaccount/namespace"] = "default"
+		claims["kubernetes.io/serviceaccount/service-account.name"] = k.Sub
+		tok, err = signJWT(e.k8sKey, "ES256", nil, claims)
 	case "oidc":
 		delete(claims, "step")
 		claims["iss"], claims["aud"], claims["azp"] = e.oidcIss, oidcClient, oidcClient
@@ -407,9 +462,13 @@ func (e *env) runSign(k *Case) (line, impl string, ok bool) {
 	}
 	pub, keyClass := e.pubKey(k.Key)
 	cau, cah := caBits(k.CA)
-	line = fmt.Sprintf("op=sign prov=%s cau=%s cah=%s dbe=%s epc=1 sub=%s ssh=%s tct=%s tkid=%s tpr=%s oem=%s ousr=%s nbn=%s nbi=%s tpip=%s rct=%s rkid=%s rpr=%s key=%s case=x%s",
-		mprov, cau, cah, c.B(ca.DB != nil), c.X(k.Sub), c.B(!k.NoSSH && k.Prov != "oidc"), c.X(k.Tok.CertType), c.X(k.Tok.KeyID), xlist(k.Tok.Principals),
-		oem, ousr, nbn, nbi, tpip, c.X(k.Req.CertType), c.X(k.Req.KeyID), xlist(k.Req.Principals), keyClass,
+	tva, tvb := k.TVA, k.TVB
+	if k.NoSSH || k.Prov == "oidc" || k.Prov == "k8ssa" {
+		tva, tvb = 0, 0
+	}
+	line = fmt.Sprintf("op=sign prov=%s cau=%s cah=%s dbe=%s epc=1 sub=%s ssh=%s tct=%s tkid=%s tpr=%s oem=%s ousr=%s nbn=%s nbi=%s tpip=%s tva=%s tvb=%s rva=%s rvb=%s rct=%s rkid=%s rpr=%s au=%s scfg=%s key=%s case=x%s",
+		mprov, cau, cah, c.B(ca.DB != nil), c.X(k.Sub), c.B(!k.NoSSH && k.Prov != "oidc" && k.Prov != "k8ssa"), c.X(k.Tok.CertType), c.X(k.Tok.KeyID), xlist(k.Tok.Principals),
+		oem, ousr, nbn, nbi, tpip, valField(tva), valField(tvb), valField(k.RVA), valField(k.RVB), c.X(k.Req.CertType), c.X(k.Req.KeyID), xlist(k.Req.Principals), c.B(k.AddUser), c.B(k.CA != "nosshcfg"), keyClass,
 		hex.EncodeToString(must(json.Marshal(k))))
 	impl = func() (out string) {
 		defer func() {
@@ -420,6 +479,15 @@ func (e *env) runSign(k *Case) (line, impl string, ok bool) {
 		ctx := provisioner.NewContextWithMethod(authority.NewContext(context.Background(), ca.Auth), provisioner.SSHSignMethod)
 		ctx = provisioner.NewContextWithToken(ctx, tok)
 		so := provisioner.SignSSHOptions{CertType: k.Req.CertType, KeyID: k.Req.KeyID, Principals: k.Req.Principals}
+		if k.RVA != 0 {
+			so.ValidAfter = provisioner.NewTimeDuration(valInstant(k.RVA))
+		}
+		if k.RVB != 0 {
+			so.ValidBefore = provisioner.NewTimeDuration(valInstant(k.RVB))
+		}
+		if k.ReqUD != "" {
+			so.TemplateData = json.RawMessage(k.ReqUD)
+		}
 		ctx = provisioner.NewContextWithCertType(ctx, so.CertType)
 		opts, err := ca.Auth.Authorize(ctx, tok)
 		if err != nil {
@@ -432,7 +500,25 @@ func (e *env) runSign(k *Case) (line, impl string, ok bool) {
 		if string(crt.Key.Marshal()) != string(pub.Marshal()) {
 			return "issue wrong-subject-key"
 		}
-		return fmt.Sprintf("issue %s by=%s", certOut(crt), e.signedBy(crt))
+		au := ""
+		if k.AddUser {
+			// api/ssh.go SSHSign: addUserPublicKey != nil && IsValidForAddUser(cert) == nil
+			au = " au=none"
+			if authority.IsValidForAddUser(crt) == nil {
+				addPub := must(ssh.NewPublicKey(e.keys["ec"].Public()))
+				ac, err := ca.Auth.SignSSHAddUser(ctx, addPub, crt)
+				switch {
+				case err != nil:
+					au = fmt.Sprintf(" au=error:%d", statusOf(err))
+				case ac.CertType != ssh.UserCert || e.signedBy(ac) != "user" || string(ac.Key.Marshal()) != string(addPub.Marshal()) ||
+					ac.ValidAfter != crt.ValidAfter || ac.ValidBefore != crt.ValidBefore || len(ac.Extensions) != 0 || len(ac.CriticalOptions) != 1:
+					au = " au=malformed"
+				default:
+					au = fmt.Sprintf(" au=kid=%s,pr=%s,fc=%s", c.X(ac.KeyId), xlist(ac.ValidPrincipals), c.X(ac.CriticalOptions["force-command"]))
+				}
+			}
+		}
+		return fmt.Sprintf("issue %s va=%s vb=%s by=%s%s", certOut(crt), valOut(crt.ValidAfter), valOut(crt.ValidBefore), e.signedBy(crt), au)
 	}()
 	return line, impl, true
 }
